@@ -38,7 +38,7 @@ import (
 var crashInv = []string{"TypeOK", "HeadHint", "ChainOK", "InsertOK", "DeleteOK", "MoveOK", "JournalReplayable",
 	"AckedOnce", "NoOrphanOnFail", "AckedCommitStored", "SingleChain"}
 
-func tip(b string) lakeh.JOp         { return lakeh.JOp{K: "tip", Key: b} }
+func tip(b string) lakeh.JOp         { return lakeh.JOp{K: "load", Key: b} } // a commit realized as a load
 func ins(n string) lakeh.JOp         { return lakeh.JOp{K: "insert", Key: n} }
 func rmkey(n string) lakeh.JOp       { return lakeh.JOp{K: "rmkey", Key: n} }
 func ren(id int, n string) lakeh.JOp { return lakeh.JOp{K: "rename", ID: id, New: n} }
